@@ -271,7 +271,7 @@ def env_split_cases(tier):
     # round seven (`env -S '#' rm x` was approved as an empty command line): env reads the -S string by its OWN syntax - a "#"
     # comment ends the string only, \c ends it, \_ is a blank, quotes group - and the words behind the string still run.  Real
     # env decides what is executed; the spec makes no claim for these strings (validate=False).
-    odd_strings = ["#", "# c", " #", "ls #", "ls#", "ls #;", "", " ", "\\c", "ls \\c", "\\_", "'#'", '"#" ', "a\\#", "ls\\_-la #"]
+    odd_strings = ["env #", "env # c", "nohup env #", "env -i #", "#", "# c", " #", "ls #", "ls#", "ls #;", "", " ", "\\c", "ls \\c", "\\_", "'#'", '"#" ', "a\\#", "ls\\_-la #"]
     for S in odd_strings:
         for iname, iw in small[:6]:
             if any(iname == n for n, _ in NESTED):
@@ -463,6 +463,14 @@ def fd_cases(tier):
             words = ["fd", flag] + launcher
             cases.append(Case(q(words), words, "fd", "fd | bare launcher, fd appends the found path", " ".join(launcher), truth="expect",
                               expect=[launcher + ["./ITEM"]], stdin=b"", validate=False, plain_inner=False))
+        # the appended path in EVERY clause of several: a bare launcher first, last, in the middle
+        for clauses in ([["env"], ["ls"]], [["ls"], ["env"]], [["ls"], ["env"], ["ls"]], [["nice"], ["nohup"]], [["ls", "{}"], ["env"]], [["env"], ["ls", "{}"]]):
+            words = ["fd"]
+            for ci, cl in enumerate(clauses):
+                words += ([";"] if ci else []) + [flag] + cl
+            cases.append(Case(q(words), words, "fd", "fd | several clauses, a bare launcher among them", " ; ".join(" ".join(c) for c in clauses), truth="expect",
+                              expect=[[w.replace("{}", "./ITEM") for w in cl] + ([] if "{}" in cl else ["./ITEM"]) for cl in clauses],
+                              stdin=b"", validate=False, plain_inner=False))
         # a brace that is not one of fd's placeholders ({} {/} {//} {.} {/.}) does not stop fd from appending the path
         for launcher in (["env", "A={"], ["env", "A={x}"], ["env", "-u", "{"], ["env", "A=}{"], ["env", "A={/x}"], ["nohup", "env", "B={ }"]):
             words = ["fd", flag] + launcher
